@@ -276,6 +276,48 @@ Frame(asz) ==
                 P("instructions", IF asz = 4 THEN <<66, 14, 16, 0>> ELSE <<66, 14, 16, 0, 0, 0, 0, 0>>)>>
     IN c1 \o c2 \o <<P("length", U(Len(Cat(fb)), 4))>> \o fb
 
+(* -- .eh_frame / .eh_frame_hdr: ENCODED POINTERS.  Every encoded-pointer     *)
+(*    slot is written in pointer format f (low nibble of a DW_EH_PE value):   *)
+(*      0 absptr (address-sized)                       -> class addr          *)
+(*      1 uleb128, 2/3/4 udata2/4/8, 9 sleb128, 10/11/12 sdata2/4/8 -> plain  *)
+(*    (gimli decodes an absptr-format value with read_address and every other *)
+(*    format with a plain integer / LEB primitive; relocations are therefore  *)
+(*    placed on absptr slots only -- deliberate limit, see notes/C18.md).     *)
+(*    The FDE address_range is an encoded *value* of the same format: class   *)
+(*    addrlen when absptr.  `app` is the application nibble of the FDE        *)
+(*    pointer encoding ('R'): 0 absptr or 16 pcrel.  All values are < 64 so   *)
+(*    that they fit every format including one-byte LEB128.                   *)
+EhEnc(v, f, asz) == IF f = 0 THEN U(v, asz)
+                    ELSE IF f \in {1, 9} THEN <<v>>
+                    ELSE IF f \in {2, 10} THEN U(v, 2)
+                    ELSE IF f \in {3, 11} THEN U(v, 4) ELSE U(v, 8)
+EhCls(f) == IF f = 0 THEN "addr" ELSE "plain"
+EhPtr(n, v, f, asz) == F(n, EhCls(f), EhEnc(v, f, asz), f = 0)
+(* CIE "zPLR" (personality, LSDA encoding, FDE encoding) + FDE with LSDA and  *)
+(* DW_CFA_set_loc + terminator                                                *)
+EhFrameSec(asz, f, app) ==
+    LET augd  == <<P("personality_enc", <<f>>), EhPtr("personality", 33, f, asz),
+                   P("lsda_enc", <<f>>), P("fde_enc", <<app + f>>)>>
+        cbody == <<P("cie_id", U(0, 4)), P("version", <<1>>), P("augmentation_zPLR", <<122, 80, 76, 82, 0>>),
+                   P("code_align", <<1>>), P("data_align", <<120>>), P("return_address_register", <<16>>),
+                   P("aug_len", <<Len(Cat(augd))>>)>> \o augd \o <<P("instructions", <<12, 7, 8>>)>>
+        cie   == <<P("length", U(Len(Cat(cbody)), 4))>> \o cbody
+        lsda  == EhPtr("lsda", 49, f, asz)
+        fbody == <<P("cie_pointer_self_relative", U(Len(Cat(cie)) + 4, 4)),
+                   EhPtr("initial_location", 17, f, asz),
+                   F("address_range", IF f = 0 THEN "addrlen" ELSE "plain", EhEnc(8, f, asz), FALSE),
+                   P("aug_len", <<Len(lsda.bytes)>>), lsda,
+                   P("DW_CFA_set_loc", <<1>>), EhPtr("set_loc", 18, f, asz), P("nop", <<0>>)>>
+        fde   == <<P("length", U(Len(Cat(fbody)), 4))>> \o fbody
+    IN cie \o fde \o <<P("terminator", U(0, 4))>>
+(* .eh_frame_hdr: eh_frame_ptr and the binary-search table entries *)
+EhHdrSec(asz, f) ==
+    <<P("version", <<1>>), P("eh_frame_ptr_enc", <<f>>), P("fde_count_enc", <<3>>), P("table_enc", <<f>>),
+      EhPtr("eh_frame_ptr", 40, f, asz), P("fde_count", U(2, 4)),
+      EhPtr("table0_location", 16, f, asz), EhPtr("table0_fde", 20, f, asz),
+      EhPtr("table1_location", 32, f, asz), EhPtr("table1_fde", 36, f, asz)>>
+EhFormats == {0, 1, 2, 3, 4, 9, 10, 11, 12}
+
 (*============================== WRITE SIDE ================================*)
 (* Writer state: [bytes, rels]; a relocation is [off, size, tk ("sym" |     *)
 (* "sec"), t (symbol index / section number), add (BV8), pe (eh_pe or -1)]. *)
